@@ -84,6 +84,19 @@ StorageW(t) ==
       [] t.k = "array" -> Eager([e \in 1..t.cap |-> StorageW(t.elem)])
       [] t.k = "msg" -> Eager([f \in 1..Len(t.fields) |-> StorageW(t.fields[f].t)])
 
+(* the layout of a type: the sequence of segments its encoding consists of, *)
+(* in wire order -- what C12 says may not change under the listed rewrites   *)
+RECURSIVE LayoutSeq(_)
+LayoutSeq(t) ==
+    CASE IsLeaf(t) -> << <<"leaf", LeafBits(t), t.k = "int">> >>
+      [] t.k = "alias" -> LayoutSeq(t.to)
+      [] t.k = "array" ->
+            With(LayoutSeq(t.elem), LAMBDA e :
+                (IF t.ext THEN << <<"ahead", t.cap>> >> ELSE <<>>) \o << <<"repeat", t.cap, e>> >>)
+      [] t.k = "msg" ->
+            (IF t.ext THEN << <<"ahead", NBits(t)>> >> ELSE <<>>)
+            \o FoldLeft(LAMBDA acc, x : acc \o LayoutSeq(t.fields[x].t), <<>>, Order(t.fields))
+
 (* ---- event guards: each returns "" when the event is explained by the   *)
 (* spec, otherwise the name of the failing clause ----                     *)
 Check(tr, e) ==
@@ -151,6 +164,11 @@ Check(tr, e) ==
                      THEN "copy-bits"
                 ELSE IF \E p \in 1..Len(got) : p - 1 < e.di /\ got[p] # plain[p] THEN "copy-clobbers-before"
                 ELSE ""
+      [] e.ev = "SameLayout" ->
+            LET a == LayoutSeq(e.t1)
+                b == LayoutSeq(e.t2)
+            IN  IF a # b THEN "skip:rewrite-not-layout-preserving" ELSE ""
+      [] e.ev = "SameBytes" -> IF e.a # e.b THEN "bytes-changed-by-rewrite" ELSE ""
       [] e.ev = "Size" -> IF e.n # NBytes(t) THEN "size" ELSE ""
       [] e.ev = "Json" ->
             LET bv == ToBitsV(t, e.v)
